@@ -298,4 +298,51 @@ def encCurve (c : SCurve) : Bytes :=
   encU32 c.interp ++ encStr c.id ++ encU32 c.convention ++ encU32 c.modifier ++
   encOpt encU64 c.indexBase ++ encU32 2 ++ encStr c.calendar
 
+def SNumber.kind : SNumber → Nat
+  | .f64 _ => 0
+  | .dual _ => 1
+  | .dual2 _ => 2
+
+/-- one node of the typed map: timestamp, then the bare payload of the map's kind -/
+def encNode (p : Nat × SNumber) : Bytes := encU64 p.1 ++ encNodeVal p.2
+
+def decNode (kind : Nat) (bs : Bytes) : Option ((Nat × SNumber) × Bytes) :=
+  match decU64 bs with
+  | none => none
+  | some (t, r) =>
+    match decNodeVal kind r with
+    | none => none
+    | some (v, r') => some ((t, v), r')
+
+/-- `Curve` (with a named calendar): the decoder matching `encCurve` -/
+def decCurve (bs : Bytes) : Option (SCurve × Bytes) :=
+  match decU32 bs with
+  | none => none
+  | some (kind, r1) =>
+    match decSeq (decNode kind) r1 with
+    | none => none
+    | some (nodes, r2) =>
+      match decU32 r2 with
+      | none => none
+      | some (interp, r3) =>
+        match decStr r3 with
+        | none => none
+        | some (id, r4) =>
+          match decU32 r4 with
+          | none => none
+          | some (conv, r5) =>
+            match decU32 r5 with
+            | none => none
+            | some (modi, r6) =>
+              match decOpt decU64 r6 with
+              | none => none
+              | some (ib, r7) =>
+                match decU32 r7 with
+                | some (2, r8) =>
+                  (match decStr r8 with
+                   | none => none
+                   | some (cal, r9) => some (⟨kind, nodes, interp, id, conv, modi, ib, cal⟩, r9))
+                | _ => none
+
+
 end Rateslib.Serde
